@@ -372,7 +372,7 @@ class Evaluator:
                 return vals[0]
             return "".join("" if v is None else v for v in vals)
         if k == "invalid":
-            raise ExpressionError(e[1])
+            raise ExpressionError(e[1], e[2] if len(e) > 2 else None)
         raise ValueError(e)
 
 
